@@ -101,7 +101,9 @@ func ruleLockset(c *Check, rGuard, rBlock, rOrder, rChan string) {
 				}
 				return false
 			},
-			KeepAtom: func(a Atom) bool { return strings.Contains(a.String(), "sendLast") || strings.Contains(a.String(), "released") },
+			KeepAtom: func(a Atom) bool {
+				return strings.Contains(a.String(), "sendLast") || strings.Contains(a.String(), "released")
+			},
 		})
 		if w.Err != nil {
 			c.Undecided(rGuard, name, "path walk failed: "+w.Err.Error(), c.P.Pos(fn.Pos()))
@@ -270,8 +272,10 @@ func ruleTopicChannels(c *Check, rule string) {
 		}
 		name := QualName(fn)
 		w := Walk(c.P, fn, WalkConfig{Memo: true,
-			KeepEvent: func(e *Event) bool { return e.Kind == "send" || e.Kind == "ret" || e.Kind == "call" && e.Callee == "builtin:close" },
-			KeepAtom:  func(a Atom) bool { return false }})
+			KeepEvent: func(e *Event) bool {
+				return e.Kind == "send" || e.Kind == "ret" || e.Kind == "call" && e.Callee == "builtin:close"
+			},
+			KeepAtom: func(a Atom) bool { return false }})
 		if w.Err != nil {
 			continue
 		}
